@@ -237,12 +237,19 @@ impl Prop for C15 {
     fn gen(seed: u64, _idx: u64, _tier: Tier) -> SchedCase {
         let mut r = Rng::new(seed);
         let src = match r.below(12) {
-            0..=4 => IoSrc::Mux(small_scenario(r.next_u64() >> 16)),
+            0..=3 => IoSrc::Mux(small_scenario(r.next_u64() >> 16)),
+            4 => IoSrc::Seed(SeedSpec::MuxShuffled { seed: r.below(1 << 16) }),
             5 => IoSrc::Seed(SeedSpec::Canned("minimal.mp4".into())),
             6 => IoSrc::Seed(SeedSpec::CannedFrag),
             7 | 8 => IoSrc::Seed(SeedSpec::Frag { seed: r.below(1 << 16) }),
             9 => IoSrc::Seed(SeedSpec::Meta { seed: r.below(1 << 16) }),
-            10 => IoSrc::Seed(SeedSpec::MuxReloc { seed: r.below(1 << 16) }),
+            10 => {
+                if r.chance(1, 2) {
+                    IoSrc::Seed(SeedSpec::MuxReloc { seed: r.below(1 << 16) })
+                } else {
+                    IoSrc::Seed(SeedSpec::MuxShuffled { seed: r.below(1 << 16) })
+                }
+            }
             _ => IoSrc::Seed(SeedSpec::Canned("extended_audio_object_type.mp4".into())),
         };
         let img = match &src {
